@@ -57,7 +57,15 @@ impl Scenario for DupScenario {
         let dups: Vec<Value> = (0..ndup).map(|_| json!({"of": r.below(n), "shard": r.below(shards), "pos": r.below(n + 1)})).collect();
         // which helpers receive the duplicated input (bit mask, at least one)
         let helpers = if r.chance(1, 2) { 7 } else { r.range(1, 7) };
-        json!({"shards": shards, "n": n, "place": place, "dups": dups, "dup_helpers": helpers, "crypto_seed": r.next_u64() >> 12,
+        // transport fault on the tag exchange: the stream that carries the copy's tag from the shard it was submitted to towards
+        // the shard that owns it is cut short by 8 bytes (the copy is then the last record of that shard's input)
+        let tag_cut = shards > 1 && ndup > 0 && r.chance(1, 3);
+        let mut dups = dups;
+        if tag_cut {
+            dups.truncate(1);
+            dups[0]["pos"] = json!(n + 1);
+        }
+        json!({"shards": shards, "n": n, "place": place, "dups": dups, "dup_helpers": helpers, "crypto_seed": r.next_u64() >> 12, "tag_cut": tag_cut,
             "knobs": draw_knobs(&mut r), "sched": SchedSpec::draw(&mut r, 30_000, 20_000_000)})
     }
 
@@ -131,21 +139,43 @@ macro_rules! make_exec {
             }
             // expected shard of every duplicated report on helper h: tag = first 16 bytes of the match-key
             // ciphertext (record layout: event type, 32-byte encapsulated key, ciphertext), shard = tag mod S
-            let routed = |h: usize, of: usize| -> usize {
-                let rec = &enc[h][of];
+            let routed_rec = |rec: &Vec<u8>| -> usize {
                 let mut t = [0u8; 16];
                 t.copy_from_slice(&rec[33..49]);
                 (u128::from_le_bytes(t) % $n) as usize
             };
+            let routed = |h: usize, of: usize| -> usize { routed_rec(&enc[h][of]) };
+            // F3: per helper that received the copy, cut 8 bytes off the end of the tag stream (copy's shard -> owner shard)
+            let tag_cut = p.get("tag_cut").and_then(Value::as_bool) == Some(true) && !dups.is_empty();
+            let mut cut_sites: Vec<crate::verif::faults::Site> = Vec::new();
+            let mut cut_on: BTreeMap<usize, usize> = BTreeMap::new(); // helper -> owner shard whose incoming tag stream is cut
+            if tag_cut {
+                let (of, s, _) = dups[0];
+                for h in 0..3 {
+                    if dup_helpers & (1 << h) == 0 { continue; }
+                    let o = routed(h, of);
+                    if o == s { continue; }
+                    let len = 16 * inputs[h][s].iter().filter(|rec| routed_rec(rec) == o).count();
+                    if len == 0 { continue; }
+                    cut_sites.push(crate::verif::faults::Site {
+                        chan: crate::verif::faults::ChanKey { kind: "shard", src: s, dst: o, shard: h, gate: "~reshard_by_tag".into() },
+                        chunk: 0, offset: 0, pattern: "trunc:8".into(), stream_off: Some(len - 1),
+                    });
+                    cut_on.insert(h, o);
+                }
+            }
+            let (tamper, _unused) = crate::verif::faults::tamper_many(cut_sites);
+            let tamper2 = StdArc::clone(&tamper);
             let prog = StdArc::new(StdMutex::new(Progress::default()));
             let cutoff = StdArc::new(AtomicBool::new(false));
             let (prog2, cutoff2) = (StdArc::clone(&prog), StdArc::clone(&cutoff));
             let inputs2 = inputs.clone();
             let outcome = sim_async(&spec, StdArc::clone(&cutoff), move || {
-                let (prog, cutoff, inputs, registry) = (StdArc::clone(&prog2), StdArc::clone(&cutoff2), inputs2.clone(), StdArc::clone(&registry));
+                let (prog, cutoff, inputs, registry, tamper) = (StdArc::clone(&prog2), StdArc::clone(&cutoff2), inputs2.clone(), StdArc::clone(&registry), StdArc::clone(&tamper2));
                 async move {
                     let (prog_i, cutoff_i) = (StdArc::clone(&prog), StdArc::clone(&cutoff));
-                    let interceptor: DynStreamInterceptor = Arc::new(move |ctx: &InspectContext, _data: &mut Vec<u8>| {
+                    let interceptor: DynStreamInterceptor = Arc::new(move |ctx: &InspectContext, data: &mut Vec<u8>| {
+                        crate::helpers::in_memory_config::StreamInterceptor::peek(&*tamper, ctx, data);
                         let (node, gate) = match ctx {
                             InspectContext::MpcMessage { shard, source, gate, .. } => ((hidx(*source), shard.map_or(0, usize::from)), gate.as_ref().to_string()),
                             InspectContext::ShardMessage { helper, source, gate, .. } => ((hidx(*helper), usize::from(*source)), gate.as_ref().to_string()),
@@ -191,7 +221,22 @@ macro_rules! make_exec {
                 _ => return RunRes::violation("dups_panic", format!("panic: {}", outcome.panic_msg.clone().unwrap_or_default()), shape, Some(outcome)),
             }
             let is_dup_err = |r: &Result<usize, String>| matches!(r, Err(e) if e.contains("Duplicate bytes"));
+            let cut_fired = !tamper.log.lock().unwrap().fired.is_empty();
+            // helpers whose tag stream was cut: the owner shard must fail the query (any error) before attribution starts
+            for (h, o) in cut_on.iter().filter(|_| cut_fired) {
+                match pr.returned.get(&(*h, *o)) {
+                    Some(Err(_)) if !pr.err_after_attribution_started.contains(&(*h, *o)) => {}
+                    other => {
+                        return RunRes::violation("duplicate_not_rejected_after_tag_stream_fault",
+                            format!("helper {} shard {o}: the stream carrying the copy's tag arrived cut short, yet the shard {} ({})", h + 1,
+                                match other { Some(r) => format!("returned {r:?}"), None => "went on to attribution".into() }, outcome.class), shape, Some(outcome));
+                    }
+                }
+            }
             for h in 0..3 {
+                if cut_fired && cut_on.contains_key(&h) {
+                    continue; // judged above; with a broken stream the kind of error is not prescribed
+                }
                 let gets_dups = dup_helpers & (1 << h) != 0 && !dups.is_empty();
                 let expected: BTreeSet<usize> = if gets_dups { dups.iter().map(|d| routed(h, d.0)).collect() } else { BTreeSet::new() };
                 for s in 0..$n {
@@ -226,6 +271,7 @@ macro_rules! make_exec {
             res.probe("copies_in_other_shard_input", dups.iter().filter(|d| d.1 != place[d.0]).count() as u64);
             res.probe(&format!("outcome_{}", outcome.class), 1);
             res.fault("F7_duplicated_records", dups.len() as u64);
+            res.fault("F3_tag_stream_cut_short", u64::from(cut_fired));
             res.fault("F8_cutoff_after_duplicate_check", u64::from(outcome.class == "cutoff"));
             res
         }
